@@ -126,4 +126,32 @@ def putDevice (st : BState) (doc : DeviceDoc) : BState :=
 def putSlaves (st : BState) (docs : List (String × Slave)) : BState :=
   { st with slaves := fun n => (docs.find? (fun a => a.1 = n)).map (·.2) }
 
+/-- PUT /device with a document that may fail the (loose) device schema: validation comes first and raises before
+anything is touched; PUT /device never touches the updating/events switches -/
+def putDeviceDoc (st : BState) (doc : Option DeviceDoc) : BState × Bool :=
+  match doc with
+  | none => (st, false)
+  | some d => (putDevice st d, true)
+
+/-- index of the first entry that fails the POST /devices schema (`none` entries), counting from `i` -/
+def firstInvalid : List (Option (String × Slave)) → Nat → Option Nat
+  | [], _ => none
+  | none :: _, i => some i
+  | some _ :: r, i => firstInvalid r (i + 1)
+
+inductive SlavesResp where
+  | ok
+  | err (index : Nat)
+  deriving DecidableEq, Repr
+
+/-- PUT /devices as a whole: switches off; `try:` all slave devices removed, every entry validated in document order
+(the first failing one raises an error carrying its index), the devices added; `finally:` switches on -/
+def putSlavesDoc (st : BState) (docs : List (Option (String × Slave))) : BState × SlavesResp :=
+  let st1 := { st with events := false, updating := false }
+  let body : (String → Option Slave) × SlavesResp :=
+    match firstInvalid docs 0 with
+    | some i => (fun _ => none, .err i)
+    | none => ((putSlaves st1 (docs.filterMap id)).slaves, .ok)
+  ({ st1 with slaves := body.1, updating := true, events := true }, body.2)
+
 end QtVerif.Backup
